@@ -106,14 +106,15 @@ theorem rootAttrs (dt ver bid today : String) (au af so : Option String) (tx : S
   cases au <;> cases af <;> cases so <;> simp [getAttr, optAttr, List.find?_cons]
 
 theorem decodeFile_encodeFile (fc : FileCfg) (f : File)
-    (hS : StateLaws (fc.cfgFor f.header.benchmarkId)) (hok : okFile fc f) :
+    (hS : StateLaws (fc.cfgFor f.header.benchmarkId)) (htab : hasTable (countryOf fc.countries f.header.benchmarkId) fc.tables = true)
+    (hok : okFile fc f) :
     decodeFile fc (encodeFile fc f) = some (normFile fc f) := by
   obtain ⟨h1, h2, h3, h4, h5, h6⟩ := rootAttrs (decimalToStr fc.P f.header.dt) "2020a" f.header.benchmarkId fc.today f.header.author
     f.header.affiliation f.header.source "" ((fileKidsC (fc.cfgFor f.header.benchmarkId)).enc (f.location, f.tags, f.body))
   have hk := (fileKidsC_lawful hS).rt (f.location, f.tags, f.body) hok
   simp only [decodeFile, encodeFile]
   rw [h1, h2, h3]
-  simp only [beq_self_eq_true, ↓reduceIte, hk, h4, h5, h6]
+  simp only [beq_self_eq_true, htab, Bool.and_self, ↓reduceIte, hk, h4, h5, h6]
   rfl
 
 end CR.X
